@@ -37,6 +37,7 @@ def run(ctx):
     ctx.rule(config_syntax)
     ctx.rule(seed)
     ctx.rule(torch_twins)
+    ctx.rule(torch_port_geometry)
 
 
 # ----------------------------------------------------------------- helpers
@@ -656,3 +657,12 @@ def torch_twins(ctx):
             len(rets[0].value.args) == 1 and astq.text(rets[0].value.args[0]) == "%s.%s" % (m.params[1], attr)
         ctx.check(ok, R, m, rets[0] if rets else m.node, "%s.%s copies the NumPy object's %s" % (cls, meth, attr),
                   "%s.%s does not construct cls(<obj>.%s)" % (cls, meth, attr))
+
+
+def torch_port_geometry(ctx):
+    """signals-to-torch-feat-dir stores what the PyTorch port computes; the stored frames equal
+    the library's compute_full only if the port has the documented framing geometry (rule
+    shared with C14)."""
+    from . import c14
+
+    c14.geom_twin(ctx, R="R-C09-torch-port-geometry")
